@@ -60,15 +60,25 @@ func (f *formatValidator) Applies(source interface{}, kind reflect.Kind) bool {
 		return false
 	}
 
-	switch source := source.(type) {
-	case *spec.Items:
-		return kind == reflect.String && f.KnownFormats.ContainsName(source.Format)
-	case *spec.Parameter:
-		return kind == reflect.String && f.KnownFormats.ContainsName(source.Format)
-	case *spec.Schema:
-		return kind == reflect.String && f.KnownFormats.ContainsName(source.Format)
-	case *spec.Header:
-		return kind == reflect.String && f.KnownFormats.ContainsName(source.Format)
+	// NOTE: the format to check is the validator's own, whenever it has one: for the items of a parameter
+	// or header, source is the enclosing parameter or header, which declares another format (or none).
+	format := f.Format
+	if format == "" {
+		switch source := source.(type) {
+		case *spec.Items:
+			format = source.Format
+		case *spec.Parameter:
+			format = source.Format
+		case *spec.Schema:
+			format = source.Format
+		case *spec.Header:
+			format = source.Format
+		}
+	}
+
+	switch source.(type) {
+	case *spec.Items, *spec.Parameter, *spec.Schema, *spec.Header:
+		return kind == reflect.String && f.KnownFormats.ContainsName(format)
 	default:
 		return false
 	}
